@@ -4,6 +4,7 @@ import (
 	"encoding/json"
 	"fmt"
 	"os"
+	"sort"
 	"testing"
 	"time"
 
@@ -393,4 +394,80 @@ func cfgFromParams(p distrtypes.Params) DCfg {
 		c.Subs = append(c.Subs, n)
 	}
 	return c
+}
+
+// TestC10Restart: the property on the ABCI chain (signed transactions, x/gov deciding and executing
+// proposals in EndBlock, commits) with the node process restarting between blocks.  State that lives
+// only in an application instance's memory is invisible to the single-instance machine above: what a
+// node computed with it is committed, and the instance that comes up after a restart has to go on from
+// there.  One history in two opens with a proposal that re-plans the emission schedule (every period of
+// the stored schedule cut to ten seconds, one more period appended) and is rolled back because its
+// second message fails; the blocks that follow pass all those period ends.
+func TestC10Restart(t *testing.T) {
+	st := StatsFor("C10")
+	rapid.Check(t, func(t *rapid.T) {
+		g := GenABCIGenesis(t)
+		d := newABCIDriver(t, g)
+		scripted := rapid.Bool().Draw(t, "rolledBackScheduleFirst")
+		if scripted {
+			stored, _ := g.Minter.Build()
+			var ms []*mintertypes.Minter
+			end := T0.Add(40 * time.Second)
+			ids := []uint32{}
+			for _, m := range stored.Minters {
+				ids = append(ids, m.SequenceId)
+			}
+			sort.Slice(ids, func(i, j int) bool { return ids[i] < ids[j] })
+			for _, id := range ids {
+				e := end
+				ms = append(ms, &mintertypes.Minter{SequenceId: id, EndTime: &e, Config: mustAny(&mintertypes.LinearMinting{Amount: sdk.NewInt(1000)})})
+				end = end.Add(10 * time.Second)
+			}
+			ms = append(ms, &mintertypes.Minter{SequenceId: ids[len(ids)-1] + 1, Config: mustAny(&mintertypes.NoMinting{})})
+			start := stored.StartTime
+			if start.After(T0) {
+				start = T0
+			}
+			msgs := []sdk.Msg{&mintertypes.MsgUpdateMintersParams{Authority: GovAuthority(), StartTime: start, Minters: ms},
+				&banktypes.MsgSend{FromAddress: GovAuthority(), ToAddress: KeyAcc(1).Addr.String(), Amount: sdk.NewCoins(sdk.NewCoin(Denom, sdk.NewIntFromBigInt(pow10[30])))}}
+			if rapid.IntRange(0, 3).Draw(t, "reallyPasses") == 0 {
+				msgs = msgs[:1] // (sometimes the schedule really is installed)
+			}
+			m, err := govv1.NewMsgSubmitProposal(msgs, sdk.NewCoins(sdk.NewInt64Coin(Denom, 10)), KeyAcc(1).Addr.String(), "")
+			if err != nil {
+				panic(err)
+			}
+			d.scripted = []plannedTx{{KeyAcc(1), []sdk.Msg{m}, "gov", "proposal:minter_replanned_first", nil}}
+			d.quietBlocks = 3
+		}
+		nb := rapid.IntRange(5, 14).Draw(t, "nBlocks")
+		restarts := 0
+		for i := 0; i < nb; i++ {
+			var pan interface{}
+			func() {
+				defer func() { pan = notRapid(recover()) }()
+				d.genBlock(fmt.Sprintf("b%d", i))
+			}()
+			if pan != nil {
+				t.Fatalf("block %d (height %d) panicked in begin / end block processing: %v\nhistory:\n%s", i+1, d.c.Height+1, pan, jsonStr(d.log))
+			}
+			rolledBackNow := len(d.failedExecAt) > 0 && d.failedExecAt[len(d.failedExecAt)-1] == i
+			if i < nb-1 && (rapid.IntRange(0, 3).Draw(t, fmt.Sprintf("restart%d", i)) == 0 || (rolledBackNow && rapid.Bool().Draw(t, fmt.Sprintf("restartAfterRollback%d", i)))) {
+				d.c.Restart()
+				restarts++
+				d.note("node restarted after block %d", i+1)
+			}
+		}
+		var cl []string
+		if restarts > 0 {
+			cl = append(cl, "node_restarted")
+		}
+		if d.failedExec > 0 {
+			cl = append(cl, "passed_proposal_rolled_back_at_execution")
+		}
+		if scripted {
+			cl = append(cl, "schedule_replanned_by_the_first_proposal")
+		}
+		st.Case(restarts > 0 && (d.passed > 0 || d.failedExec > 0), map[string]interface{}{"genesis": g, "history": d.log}, cl...)
+	})
 }
